@@ -128,6 +128,25 @@ theorem transport_fails_at_first_conflict (c : Ctx) (id : Bytes) (hc : extractOr
     ∃ j, n = i + j ∧ (∀ h ∈ hops.take j, hopClean id h = true) ∧ ∃ hp, hops[j]? = some hp ∧ hopClean id hp = false :=
   PfC20.transport_fails_at c id hc hops i e n h
 
+/-- HTTP injection OVERWRITES the header: whatever values the request already carried (absent, present
+with an empty first value — what a proxy copying `Header.Get` of an unauthenticated request produces
+—, the same identifier, further values behind it), after a successful injection the header has
+exactly one value, the identifier; so the receiver, which reads the first value, finds it. -/
+theorem http_injection_sets_single_value (c : Ctx) (hdr h' : List Bytes) (h : injectHTTP c hdr = .ok h') :
+    ∃ id, extractOrgID c = .ok id ∧ h' = [id] := by
+  unfold injectHTTP at h
+  cases hc : extractOrgID c with
+  | error e => simp [hc] at h
+  | ok id =>
+    simp only [hc] at h
+    split at h
+    · simp at h
+    · injection h with h; exact ⟨id, rfl, h.symm⟩
+
+/-- a present-but-empty header, alone or followed by another value, does not stop the identifier. -/
+example : (chain [(.org, [97])] [.http [[]] [], .http [[], [98]] [], .http [[97], [98]] []] 0).map extractOrgID = .ok (.ok [97]) ∧
+    chain [(.org, [97])] [.http [[98], [97]] []] 0 = .error (.differentOrg, 0) := by decide
+
 /-- A request whose context holds no identifier is rejected at the first hop, never given a default
 (sending side: `Inject…` fails). -/
 theorem no_default (c : Ctx) (hc : c.value .org = none) (h : Hop) : hop c h = .error .noOrgID :=
@@ -137,11 +156,11 @@ theorem no_default_chain (c : Ctx) (hc : c.value .org = none) (h : Hop) (hs : Li
     chain c (h :: hs) i = .error (.noOrgID, i) := by
   simp [chain, PfC20.no_default c hc h]
 
-/-- Receiving side: an absent or empty header, and absent or multiple metadata values, are rejected
+/-- Receiving side: an absent header, a header whose first value is empty, and absent or multiple metadata values, are rejected
 whatever the receiving context already holds (a stale identifier there is not used as a default). -/
 theorem receiver_rejects_missing (recv : Ctx) (a b : Bytes) (l : List Bytes) :
-    extractHTTP recv [] = .error .noOrgID ∧ extractGRPC recv [] = .error .noOrgID ∧
-    extractGRPC recv (a :: b :: l) = .error .noOrgID := ⟨rfl, rfl, rfl⟩
+    extractHTTP recv [] = .error .noOrgID ∧ extractHTTP recv ([] :: l) = .error .noOrgID ∧ extractGRPC recv [] = .error .noOrgID ∧
+    extractGRPC recv (a :: b :: l) = .error .noOrgID := ⟨rfl, rfl, rfl, rfl⟩
 
 /-- The resolvers on a context without an identifier: `ErrNoOrgID`, no default tenant. -/
 theorem resolver_rejects_missing (c : Ctx) (hc : c.value .org = none) :
@@ -153,15 +172,15 @@ theorem resolver_rejects_missing (c : Ctx) (hc : c.value .org = none) :
 extracted identifier is bound on top of it, so it overrides whatever identifier the receiver held
 (for any receiving context, e.g. one carrying a stale identifier), while the receiver's other values
 (here: the user id) stay visible. -/
-theorem extraction_overrides_receiver (recv : Ctx) (h x : Bytes) (hne : h ≠ []) :
-    (∃ c, extractHTTP recv h = .ok c ∧ extractOrgID c = .ok h ∧ c.value .user = recv.value .user) ∧
+theorem extraction_overrides_receiver (recv : Ctx) (h x : Bytes) (more : List Bytes) (hne : h ≠ []) :
+    (∃ c, extractHTTP recv (h :: more) = .ok c ∧ extractOrgID c = .ok h ∧ c.value .user = recv.value .user) ∧
     (∃ c, extractGRPC recv [x] = .ok c ∧ extractOrgID c = .ok x ∧ c.value .user = recv.value .user) :=
-  ⟨⟨injectOrgID recv h, by simp [extractHTTP, hne], PfC20.extract_inject recv h, PfC20.value_inject_user recv h⟩,
+  ⟨⟨injectOrgID recv h, by simp [extractHTTP, headerGet, hne], PfC20.extract_inject recv h, PfC20.value_inject_user recv h⟩,
    ⟨injectOrgID recv x, rfl, PfC20.extract_inject recv x, PfC20.value_inject_user recv x⟩⟩
 
 /-- a receiver holding the stale identifier `x` and user `u`: after extraction of `a` the context
 yields `a`, and still the user `u`. -/
-example : (extractHTTP [(.user, [117]), (.org, [120])] [97]).map (fun c => (extractOrgID c, c.value .user)) =
+example : (extractHTTP [(.user, [117]), (.org, [120])] [[97]]).map (fun c => (extractOrgID c, c.value .user)) =
     .ok (.ok [97], some [117]) := by decide
 
 /-! ### The empty identifier -/
@@ -188,9 +207,9 @@ example : tenantIDs [98, 124, 97, 58, 107, 124, 98] = .ok [[97], [98]] := by dec
 -- "t:a=b:c=d"
 example : parseWithMetadata [116, 58, 97, 61, 98, 58, 99, 61, 100] = .ok ([116], [58, 97, 61, 98, 58, 99, 61, 100]) := by decide
 -- a clean chain with stale receivers delivers "a"; the hypotheses of `transport_chain_succeeds` hold on it
-example : (chain [(.org, [97])] [.http [] [], .grpc none [(.org, [120])], .http [97] [(.org, [120])], .grpc (some [[97]]) []] 0).map extractOrgID
+example : (chain [(.org, [97])] [.http [] [], .grpc none [(.org, [120])], .http [[97]] [(.org, [120])], .grpc (some [[97]]) []] 0).map extractOrgID
     = .ok (.ok [97]) := by decide
-example : ∀ h ∈ [Hop.http [] [], .grpc none [(.org, [120])], .http [97] [(.org, [120])], .grpc (some [[97]]) []], hopClean [97] h = true := by decide
-example : chain [(.org, [97])] [.http [98] []] 0 = .error (.differentOrg, 0) := by decide
+example : ∀ h ∈ [Hop.http [] [], .grpc none [(.org, [120])], .http [[97]] [(.org, [120])], .grpc (some [[97]]) []], hopClean [97] h = true := by decide
+example : chain [(.org, [97])] [.http [[98]] []] 0 = .error (.differentOrg, 0) := by decide
 
 end PC20
